@@ -466,6 +466,22 @@ func c17Run(ctx *core.Ctx, idx int, dotu bool, steps int) core.Result {
 			if !walk(fid, p) {
 				continue
 			}
+			if (argc == "file" || argc == "empty-dir") && p != "" && r.Intn(3) == 0 && fi != nil && (fi.Mode().IsRegular() || fi.IsDir()) {
+				// between the walk and the remove the name comes to designate an object of the other kind (another
+				// process replaced it, in both trees): a fid designates a name, the remove acts on what is there now
+				for _, base := range []string{e.root, twin} {
+					full := filepath.Join(base, p)
+					_ = os.Remove(full)
+					if argc == "file" {
+						_ = os.Mkdir(full, 0o755)
+					} else {
+						_ = os.WriteFile(full, []byte("was a directory"), 0o644)
+					}
+				}
+				touched(p)
+				touched(filepath.Dir(p))
+				argc += "-replaced-by-other-kind"
+			}
 			rep = rw.rpc(&wire.Msg{Type: wire.Tremove, Fid: fid})
 			perr = os.Remove(filepath.Join(twin, p))
 			fid = 0 // remove gives the fid up whatever happens
